@@ -49,8 +49,13 @@ def _cases(draw):
     cell = draw(gc.cell_descs(lo=3.0, hi=12.0, kinds=("orth", "tric"), allow_lefthanded=False))
     fl = st.floats(0.0, 1.0, exclude_max=True, allow_nan=False, width=64)
     frac = [[draw(fl) for _ in range(3)] for _ in range(n)]
-    return {"kind": "structure", "preset": preset, "Z": Z, "cell": cell, "pbc": draw(gc.pbcs), "frac": frac,
-            "thr": draw(gc.ffloat(0.3, 2.0)), "custom": [draw(gc.ffloat(0.2, 2.5)) for _ in range(n)]}
+    d = {"kind": "structure", "preset": preset, "Z": Z, "cell": cell, "pbc": draw(gc.pbcs), "frac": frac,
+         "thr": draw(gc.ffloat(0.3, 2.0)), "custom": [draw(gc.ffloat(0.2, 2.5)) for _ in range(n)]}
+    if draw(st.integers(0, 2)) == 0:
+        # a crystalline structure (defective crystal, slab, stack ...) in which SBC actually finds clusters: for the clustering clauses
+        from vlib.gen import messy
+        d["messy"] = draw(messy.structures(max_atoms=60, allow_zero_periodic=False))
+    return d
 
 
 def strategy(tier):
@@ -103,6 +108,16 @@ def run_case(desc):
     pbc = np.array(desc["pbc"], bool)
     pos = np.array(desc["frac"], float) @ cell
     at = Atoms(numbers=Z, positions=pos, cell=cell, pbc=pbc)
+    if desc.get("messy") is not None:
+        from vlib.gen import messy
+        at = messy.build(desc["messy"])
+        Z = at.get_atomic_numbers()
+        pbc = np.asarray(at.get_pbc())
+        if np.isnan(reference(preset, Z)).any():
+            out.discard = "element-without-radius"
+            return out
+        desc = dict(desc, custom=list(np.linspace(0.4, 2.0, len(Z))))
+        out.cls("crystalline")
     thr = float(desc["thr"])
     arr = reference(preset, Z)
     has_novdw = bool(set(Z.tolist()) & set(NO_VDW))
@@ -132,6 +147,23 @@ def run_case(desc):
     ok2, c2 = call(clusters, arr.copy())
     if ok1 != ok2 or (ok1 and c1 != c2):
         out.fail("clustering-preset-vs-array", "preset %r -> %r, array -> %r" % (preset, c1, c2), key="clustering-preset-vs-array:" + preset)
+    # history: ONE SBC object first clusters the structure with another preset, then with this one - the second answer must be
+    # the one a fresh object gives (whatever the object cached for the first radii must not leak)
+    other = "covalent" if preset != "covalent" else "vdw_covalent"
+
+    def reused():
+        sb = matid.SBC()
+        sb.get_clusters(at.copy(), radii=other, bond_threshold=min(thr, 1.0))
+        cl = sb.get_clusters(at.copy(), radii=preset, bond_threshold=min(thr, 1.0))
+        return sorted((sorted(int(i) for i in c.indices), c.get_dimensionality()) for c in cl)
+
+    def fresh():
+        cl = matid.SBC().get_clusters(at.copy(), radii=preset, bond_threshold=min(thr, 1.0))
+        return sorted((sorted(int(i) for i in c.indices), c.get_dimensionality()) for c in cl)
+    ok1, a1 = call(reused)
+    ok2, a2 = call(fresh)
+    if ok1 != ok2 or (ok1 and a1 != a2):
+        out.fail("preset-honoured-on-reused-object", "SBC object that first clustered with %r then with %r gives %r, a fresh object gives %r" % (other, preset, str(a1)[:150], str(a2)[:150]))
     if out.nontrivial:
         out.cls("nontrivial")
     return out
